@@ -581,6 +581,9 @@ pub fn run_check(check: &dyn Check, tier: Tier) -> i32 {
             "samples": stats.samples,
             "ops_executed": stats.ops,
             "counters": stats.counters,
+            "faults_fired": stats.counters.iter().filter(|(k, _)| k.starts_with("fault.") || k.starts_with("crash.images")).map(|(k, v)| (k.clone(), *v)).collect::<BTreeMap<String, u64>>(),
+            "simulated_seconds_covered": stats.get("sched.simulated_ms") as f64 / 1000.0,
+            "scheduling_points": stats.get("sched.points"),
             "distinct": distinct_counts,
             "runs_per_hour": if wall > 0.0 { (stats.runs as f64 / wall * 3600.0) as u64 } else { 0 },
             "workers": n,
